@@ -12,11 +12,11 @@ def run(tier, seed):
     quick = tier == "quick"
     workers = 6 if quick else 14
     cases = []
-    r = tlc("MC_CaXmlEsc", cfg_with(wd, "MC_CaXmlEsc.cfg", "esc.cfg", [("MaxLen = 4", "MaxLen = 4" if quick else "MaxLen = 5")]),
+    r = tlc("MC_CaXmlEsc", cfg_with(wd, "MC_CaXmlEsc.cfg", "esc.cfg", [("MaxLen = 4", "MaxLen = 4" if quick else "MaxLen = 6")]),
             workers=workers, xmx="8g", timeout=3000)
     tlc_must_hold(r, "CaXmlEsc")
     vlib.require_coverage(r, ["AppendChar"], "CaXmlEsc")
-    c.add_tlc(r, "escaping machine: every value over {a < > & \" ' ; l t} up to length 4/5 in attribute and PCDATA mode: Incremental, "
+    c.add_tlc(r, "escaping machine: every value over {a < > & \" ' ; l t} up to length 4/6 in attribute and PCDATA mode: Incremental, "
                  "RoundTrip (well-formed in context and reads back as the value), AttrCoversPcdata")
     cases += r.replay
     r = tlc("MC_CaXmlMsg", cfg_with(wd, "MC_CaXmlMsg.cfg", "msg.cfg", [("MaxStr = 2", "MaxStr = 2" if quick else "MaxStr = 3")]),
@@ -58,7 +58,7 @@ def run(tier, seed):
                 it["raw"] = it["raw"][:i + 1] + it["raw"][i + 5:]
                 return k + 1
         return 0
-    seeds = [seed * 1000 + i for i in range(2 if quick else 10)]
+    seeds = [seed * 1000 + i for i in range(2 if quick else 30)]
     vlib.trace_rounds(c, "Trace_CaXml", "caxml", seeds, 400 if quick else 4000, mut)
     c.cov["rule"] = ("cases = every state of the escaping machine and of the message case machine (fault plans included); an evaluation = "
                      "one value escaped / one message built, written, scanned, re-parsed / one mutated document offered to six parsers; "
